@@ -10,6 +10,7 @@ the repository has bare `except:` clauses around its FAB scans.
 import builtins
 import fractions
 import itertools
+import os
 import time
 
 import numpy as _np
@@ -20,6 +21,35 @@ _real_float = builtins.float
 
 # ----------------------------------------------------------------------------------------------
 # context
+
+
+# z3's own timeout is not always honoured by the nonlinear arithmetic engine: a watchdog thread (one per process, started
+# on first use, so it also exists in forked case workers) interrupts a query that runs far beyond it; the query then
+# answers `unknown`, which every caller already treats as undecided.
+_WD = {'pid': None, 'deadline': None, 'fired': 0}
+WATCHDOG_SECONDS = 30.0
+
+
+def _watchdog_loop():
+    while True:
+        time.sleep(0.25)
+        d = _WD['deadline']
+        if d is not None and time.monotonic() > d:
+            _WD['deadline'] = None
+            _WD['fired'] += 1
+            try:
+                z3.main_ctx().interrupt()
+            except Exception:
+                pass
+
+
+def _arm_watchdog(limit_s=None):
+    if _WD['pid'] != os.getpid():
+        import threading
+        t = threading.Thread(target=_watchdog_loop, daemon=True)
+        t.start()
+        _WD['pid'] = os.getpid()
+    _WD['deadline'] = time.monotonic() + (limit_s or WATCHDOG_SECONDS)
 
 
 class Ctx:
@@ -46,9 +76,13 @@ class Ctx:
         self.data = {}           # harness scratch (fs, audit ...)
 
     # -- solver helpers
-    def check(self, *assumps):
+    def check(self, *assumps, limit_s=None):
         t0 = time.perf_counter()
-        r = self.solver.check(*assumps)
+        _arm_watchdog(limit_s)
+        try:
+            r = self.solver.check(*assumps)
+        finally:
+            _WD['deadline'] = None
         self.tq += time.perf_counter() - t0
         self.nq += 1
         return str(r)
@@ -227,10 +261,12 @@ def _default_keep(ctx, r):
     return not any(hasattr(x, 'failed') for x in items)      # results that are no obligation sets: keep (caller's business)
 
 
-def explore(fn, max_paths=100000, timeout_ms=10000, time_budget=None, keep=_default_keep):
+def explore(fn, max_paths=100000, timeout_ms=10000, time_budget=None, keep=_default_keep, stop_after_failures=None):
     """Run fn(ctx) once per feasible path.  Returns (results, exhaustive, stats).  keep(ctx, r) says whether the path's
     solver state is still needed once the path is finished; by default it is kept only when the result carries failed
-    obligations (or is not an obligation set at all)."""
+    obligations (or is not an obligation set at all).  stop_after_failures=n ends the exploration once n unflagged paths
+    have failed obligations (the verdict is then a counterexample to replay, the remaining paths cannot change it)."""
+    nfail = 0
     work = [[]]
     results = []
     stats = {'paths': 0, 'forks': 0, 'queries': 0, 'solver_s': 0.0, 'weak': 0, 'flagged': 0,
@@ -253,6 +289,14 @@ def explore(fn, max_paths=100000, timeout_ms=10000, time_budget=None, keep=_defa
         stats['solver_s'] += ctx.tq
         stats['weak'] += 1 if ctx.weak else 0
         stats['flagged'] += 1 if ctx.flags else 0
+        if stop_after_failures is not None and not ctx.flags:
+            failed = getattr(r[0] if isinstance(r, tuple) and r else r, 'failed', None)
+            if failed:
+                nfail += 1
+                if nfail >= stop_after_failures:
+                    stats['unexplored'] = len(work)
+                    stats['stopped_on_failure'] = True
+                    return results, True, stats
     stats['unexplored'] = len(work)
     return results, not work, stats
 
